@@ -6,8 +6,8 @@
         wall time  <= 2 s + 20 us per byte          allocated <= 16 MiB + 1024 x length
    Mode "gen"  : the malformed-structure grammar H1 of length-prefixed samples (0..MaxUnits units whose
                  4-byte length fields are drawn from {0, 1, true, true+1, 2^31, 2^32-4, 2^32-1}, payloads
-                 of 0..2 bytes with NAL-header classes, and every truncation of the result) is
-                 enumerated exhaustively. (The other families H2..H5 / G1..G5 are produced by applying
+                 of 0..2 bytes with NAL-header classes, single header-only / 2- / 3-byte units of every NAL type the
+                 helpers look into, and every truncation of the result) is enumerated exhaustively. (The other families H2..H5 / G1..G5 are produced by applying
                  the mutation operators below - every prefix, byte substitutions, count inflation -
                  to the behaviours exported by AnnexB, AvcSyntax, SeiSyntax, AacSyntax, FileAsm and
                  to the corpus files; the orchestrator applies them, the counts are in the evidence.)
@@ -20,23 +20,29 @@ CONSTANTS Mode, MaxUnits, DoExport
 LenFields(true) == {<<0, 0, 0, 0>>, <<0, 0, 0, 1>>, <<0, 0, 0, true>>, <<0, 0, 0, true + 1>>, <<128, 0, 0, 0>>, <<255, 255, 255, 252>>, <<255, 255, 255, 255>>}
 Payloads == {<<>>, <<103>>, <<101, 136>>, <<66, 1>>, <<0, 0>>, <<6, 5>>}
 Units == UNION {{lf \o p : lf \in LenFields(Len(p))} : p \in Payloads}
+\* header-only and 2 / 3-byte units of every NAL type the helpers look INTO (first byte = AVC SPS, PPS, IDR, non-IDR, SEI,
+\* AUD; HEVC VPS, SPS, PPS, prefix / suffix SEI, IDR, TRAIL, AUD): used as single units (with all length fields and truncations)
+TypeBytes == {103, 104, 101, 65, 6, 9, 64, 66, 68, 78, 80, 38, 2, 70}
+ExtPayloads == {<<f>> : f \in TypeBytes} \cup {<<f, x>> : f \in TypeBytes, x \in {1, 136}} \cup {<<f, 1, x>> : f \in TypeBytes, x \in {5, 128}}
+ExtUnits == UNION {{lf \o p : lf \in LenFields(Len(p))} : p \in ExtPayloads}
 
-VARIABLES bytes, cut, l
-vars == <<bytes, cut, l>>
+VARIABLES bytes, cut, l, ext
+vars == <<bytes, cut, l, ext>>
 Trace == IF Mode = "trace" THEN ndJsonDeserialize("trace.ndjson") ELSE <<>>
-Init == bytes = <<>> /\ cut = FALSE /\ l = 1
+Init == bytes = <<>> /\ cut = FALSE /\ l = 1 /\ ext = FALSE
 
-AddUnit == Mode = "gen" /\ ~cut /\ Len(bytes) < 6 * MaxUnits /\ \E u \in Units : bytes' = bytes \o u /\ UNCHANGED <<cut, l>>
-Truncate == Mode = "gen" /\ ~cut /\ bytes # <<>> /\ \E k \in 0 .. (Len(bytes) - 1) : bytes' = SubSeq(bytes, 1, k) /\ cut' = TRUE /\ UNCHANGED l
+AddUnit == Mode = "gen" /\ ~cut /\ ~ext /\ Len(bytes) < 6 * MaxUnits /\ \E u \in Units : bytes' = bytes \o u /\ UNCHANGED <<cut, l, ext>>
+AddExt == Mode = "gen" /\ ~cut /\ bytes = <<>> /\ \E u \in ExtUnits \ Units : bytes' = u /\ ext' = TRUE /\ UNCHANGED <<cut, l>>
+Truncate == Mode = "gen" /\ ~cut /\ bytes # <<>> /\ \E k \in 0 .. (Len(bytes) - 1) : bytes' = SubSeq(bytes, 1, k) /\ cut' = TRUE /\ UNCHANGED <<l, ext>>
 
 \* ---- totality invariant on recorded outcomes
 IsEvent(e) == Mode = "trace" /\ l <= Len(Trace) /\ Trace[l].ev = e /\ l' = l + 1
-Reset == IsEvent("reset") /\ UNCHANGED <<bytes, cut>>
+Reset == IsEvent("reset") /\ UNCHANGED <<bytes, cut, ext>>
 Total(e) == /\ e.outcome = "ok"                                   \* returned a value or an error: no panic, no fatal crash
             /\ e.us <= 2000000 + 20 * e.len
             /\ e.alloc_kb <= 16384 + e.len
-Call == IsEvent("call") /\ Total(Trace[l]) /\ UNCHANGED <<bytes, cut>>
-Next == AddUnit \/ Truncate \/ Reset \/ Call
+Call == IsEvent("call") /\ Total(Trace[l]) /\ UNCHANGED <<bytes, cut, ext>>
+Next == AddUnit \/ AddExt \/ Truncate \/ Reset \/ Call
 Spec == Init /\ [][Next]_vars
 
 Export == (DoExport /\ Mode = "gen") => PrintT(ToJson([id |-> "H1", kind |-> "sample", bytes |-> bytes]))
